@@ -71,7 +71,7 @@ func (c *CronStore) updateTask(added, removed []*Entry) error {
 		_, cHas := c.entries[key]
 		_, addedHas := entryMap[key]
 		_, willRemove := removedKeys[key]
-		if !willRemove && (cHas || addedHas) {
+		if addedHas || (cHas && !willRemove) {
 			return fmt.Errorf(
 				"given entry is serialized to the value"+
 					" which overlaps to existing *Entry, serialized to %#v",
